@@ -509,8 +509,9 @@ def k2b_zip_flag(ctx):
     _implies(ctx, encrypted, is_enc_err, "encrypted-zip-not-rejected-as-encrypted", raised=repr(raised)[:100])
     if is_enc_err:
         # decided on this path: which of the two situations are we in
-        _implies(ctx, plain, False, "plain-zip-rejected-as-encrypted",
-                 cause=repr(getattr(raised, "__cause__", None))[:80], yielded=len(out))
+        if not ctx.perturb:     # the twin must be refuted by its own perturbation, not by a known finding
+            _implies(ctx, plain, False, "plain-zip-rejected-as-encrypted",
+                     cause=repr(getattr(raised, "__cause__", None))[:80], yielded=len(out))
         _implies(ctx, encrypted, not log, "member-read-in-encrypted-zip", reads=list(log))
         _implies(ctx, encrypted, not out, "content-before-encrypted-error", n=len(out))
 
@@ -750,7 +751,27 @@ def k3_odf_manifest(ctx):
         @staticmethod
         def is_zipfile(f):
             return True
-    with ctx.shadow(enc, zipfile=ZipMod, open_zipfile=lambda f, **k: Zf()):
+    # the detector hands the manifest text to the XML parser (third party): the parser is
+    # replaced by the tree it produces for this manifest grammar - element names resolved
+    # against the namespace, attribute values carrying the symbolic strings
+    from xml.etree import ElementTree as _ET
+    import defusedxml.ElementTree as _DET
+
+    def _parsed(_text):
+        q = "{" + MANIFEST_NS + "}"
+        root = _ET.Element(q + "manifest")
+        e1 = _ET.SubElement(root, q + "file-entry")
+        e1.attrib = {q + "full-path": "/", q + "media-type": "application/vnd.oasis.opendocument.text"}
+        e2 = _ET.SubElement(root, q + "file-entry")
+        e2.attrib = {q + "full-path": "content.xml", q + "media-type": "text/xml"}
+        if kind == "plain":
+            e3 = _ET.SubElement(root, q + "file-entry")
+            e3.attrib = {q + "full-path": name, q + "media-type": mt}
+        else:
+            ed = _ET.SubElement(e2, q + "encryption-data")
+            _ET.SubElement(ed, q + "start-key-generation")
+        return root
+    with ctx.shadow(enc, zipfile=ZipMod, open_zipfile=lambda f, **k: Zf()), ctx.shadow(_DET, fromstring=_parsed):
         try:
             got = enc.is_odf_encrypted(io.BytesIO(b"PK stand-in"))
         except Exception as e:
@@ -1025,17 +1046,18 @@ def k4e_epub(ctx):
     is_enc_err = isinstance(raised, E.ExtractionFileEncryptedError)
     content_enc = vname in ("content-aes", "font+content")
     font_only = vname in ("font-idpf", "font-adobe")
-    if ctx.perturb == "rights_xml_ignored":
+    if ctx.perturb == "rights_xml_is_not_drm":
         drm = _and([has_enc, content_enc])
+        plain = _or([_not(has_enc), vname == "empty"])
     else:
         drm = _or([has_rights, _and([has_enc, content_enc])])
-    plain = _and([_not(has_rights), _or([_not(has_enc), vname == "empty"])])
+        plain = _and([_not(has_rights), _or([_not(has_enc), vname == "empty"])])
     fonts = _and([_not(has_rights), has_enc, font_only])
     _implies(ctx, drm, is_enc_err, "drm-epub-not-rejected-as-encrypted", raised=repr(raised)[:100])
     if is_enc_err:
         ctx.require(not out, "content-before-encrypted-error")
         _implies(ctx, plain, False, "plain-epub-rejected-as-encrypted", encryption_xml=vname)
-        if EPUB_FONT_OBFUSCATION_IS_PLAIN:
+        if EPUB_FONT_OBFUSCATION_IS_PLAIN and not ctx.perturb:
             _implies(ctx, fonts, False, "font-obfuscated-epub-rejected-as-drm", encryption_xml=vname)
     else:
         _implies(ctx, _or([plain, fonts]), raised is None and len(out) == 1, "plain-epub-not-extracted",
@@ -1153,7 +1175,7 @@ KERNELS = [
            symbolic=["reader.is_encrypted", "decrypt('') result in {0,1,2}"], choices=["decrypt raises", "entry point"],
            outside=["pypdf's RC4/AES handling, the AES fallback (C20)", "'same content as the unencrypted original'"]),
     Kernel("K4e", "EPUB: DRM (rights.xml or content EncryptedData) => encrypted error, nothing yielded; plain never",
-           k4e_epub, targets=_t_epub, perturb=["rights_xml_ignored"],
+           k4e_epub, targets=_t_epub, perturb=["rights_xml_is_not_drm"],
            stubs=["_EpubContext.exists for the two META-INF names -> symbolic booleans (symbolic runs); replay builds "
                   "the real package"],
            symbolic=["presence of META-INF/encryption.xml", "presence of META-INF/rights.xml"],
